@@ -81,7 +81,7 @@ def build_cut(fns):
         sc.query("witness: cut path feasible [path %d]" % i, p.pc, expect="sat", kind="witness")
     # the resolution loop: every registered segment gets the hash of the xorb just built
     loops = mir.natural_loops(f)
-    heads = [h for h in loops if re.search(r"Iter<'_, usize> as Iterator>::next", f.blocks[h][1])]
+    heads = [h for h, body in loops.items() if re.search(r"as Iterator>::next", f.blocks[h][1]) and any(re.search(r"IndexMut<usize>>::index_mut", f.blocks[b][1]) for b in body)]
     if len(heads) != 1:
         raise LookupError("cut_new_xorb: resolution loop not found")
     s2 = symex.Sym(f, prefix="res.", models=symex.STD_MODELS, max_visits=1)
@@ -175,7 +175,7 @@ def build_append(fns):
         if not pushes:
             continue
         n += 1
-        size_keys = [k for k in p.store if re.search(r"\.%d$" % fd["new_data_size"], k) and k.startswith("**")]
+        size_keys = [k for k in p.store if re.match(r"\*\*_\d+(#v\d+)?(\.0)?\.%d$" % fd["new_data_size"], k)]
         if len(size_keys) != 1:
             raise LookupError("new_data_size not identified: %s" % size_keys)
         post = p.store[size_keys[0]].t
